@@ -402,6 +402,10 @@ func (s *state) applyContract(fc *funcContract, callee *ssa.Function, args []Val
 		for _, h := range s.heapNames() {
 			s.havocHeap(h)
 		}
+		// heaps this path has not touched yet may have been changed too: from here on a heap
+		// touched for the first time is a new symbol, not the entry-state one
+		u.fresh++
+		s.gen = fmt.Sprintf("%s~%d", s.gen, u.fresh)
 	}
 	for _, m := range fc.modifies {
 		e.what = fmt.Sprintf("call %s modifies %q", what, m.src)
